@@ -151,7 +151,12 @@ impl Prop for C09 {
         )
             .prop_map(|(pools, a, b, config, abort, cuts, near_cuts, corrupt_mask, (truncate_at, big))| Case::Frames(FramesCase { pools, a, b, config, abort, cuts, near_cuts, corrupt_mask, truncate_at, big }));
         let addr = (0u8..6, prop::option::of(0u8..3), vec((any::<bool>(), any::<u16>()), 0..=3)).prop_map(|(key, relay, ips)| AddrSpec { key, relay, ips });
-        let fsp = (any::<bool>(), vec(any::<u8>(), 0..6)).prop_map(|(exact, bytes)| FSpec { exact, bytes });
+        // filter bytes: random, or text-like with blanks / line ends / ':' / a non-breaking space / non-UTF-8 at the edges
+        let fbytes = prop_oneof![
+            1 => vec(any::<u8>(), 0..6),
+            1 => vec(prop::sample::select(vec![b' ', b'\t', b'\n', b'\r', b'a', b':', 0xC2, 0xA0, 0xFF, 0x00]), 0..6),
+        ];
+        let fsp = (any::<bool>(), fbytes).prop_map(|(exact, bytes)| FSpec { exact, bytes });
         let values = (
             pools(6),
             vec(egen(), 1..=4),
@@ -503,6 +508,20 @@ fn check_values(c: &ValuesCase, o: &mut Outcome) -> R<()> {
     if pb != p {
         o.fail("C09/policy-roundtrip", format!("{:?}", p));
         return Ok(());
+    }
+    // every filter survives its textual form
+    let filters = match &p {
+        iroh_docs::store::DownloadPolicy::NothingExcept(f) | iroh_docs::store::DownloadPolicy::EverythingExcept(f) => f.clone(),
+    };
+    for f in &filters {
+        let text = f.to_string();
+        match iroh_docs::store::FilterKind::from_str(&text) {
+            Ok(back) if back == *f => {}
+            other => {
+                o.fail("C09/filter-text-roundtrip", format!("filter {:?} displays as {:?}, which parses to {:?}", f, text, other.map_err(|e| e.to_string())));
+                return Ok(());
+            }
+        }
     }
     // heads (no limit)
     let mut h = AuthorHeads::default();
